@@ -64,6 +64,12 @@ for alg in OTHER_ALGS:
         KEYMAPS.append({'cls': 'hashmap', 'opt': alg, 'flat': flat, 'typed': False, 'sentinel': False})
 
 
+# chained keymaps ('+'): e.g. md5 of the pickled key, the usual way to get short file-name-safe keys
+for _base in [k for k in list(KEYMAPS) if k['cls'] in ('picklemap', 'stringmap') and k['opt'] in (None, 'dill', 'repr') and not k['sentinel']]:
+    KEYMAPS.append(dict(_base, then={'cls': 'hashmap', 'opt': 'md5', 'flat': True, 'typed': False, 'sentinel': False}))
+    KEYMAPS.append(dict(_base, then={'cls': 'stringmap', 'opt': None, 'flat': True, 'typed': False, 'sentinel': False}))
+
+
 def stable_values():
     base = st.one_of(V.ints(False), V.strs(True), V.strs(False), V.NONE, V.BOOLS, V.floats(True), V.bytess(), st.deferred(lambda: MAINOBJ))
     return st.recursive(base, lambda ch: st.one_of(
@@ -240,8 +246,9 @@ def _keys(case):
     nts.evals = len(items)
     for j, it in enumerate(items):
         r0, r1, r2 = recs[0][j], recs[1][j], recs[2][j]
-        kmtag = '%s%s%s%s%s' % (it['keymap']['cls'], '-' + str(it['keymap']['opt']) if it['keymap']['opt'] else '', '' if it['keymap']['flat'] else '-nonflat',
-                                '-typed' if it['keymap']['typed'] else '', '-sentinel' if it['keymap']['sentinel'] else '')
+        kmtag = '%s%s%s%s%s%s' % (it['keymap']['cls'], '-' + str(it['keymap']['opt']) if it['keymap']['opt'] else '', '' if it['keymap']['flat'] else '-nonflat',
+                                  '-typed' if it['keymap']['typed'] else '', '-sentinel' if it['keymap']['sentinel'] else '',
+                                  ('+then-' + it['keymap']['then']['cls']) if it['keymap'].get('then') else '')
         classes.append('key_triple')
         if r0['input'][0] == 'unbindable':
             raise RuntimeError('generator produced an unbindable call: %r' % (it,))
